@@ -5,7 +5,7 @@
    from C03_go_key_equality_is_symmetric on: Go's "==" as modelled (Value.keq) satisfies the symmetry and
    transitivity hypotheses, so the history theorems hold for the pool's keys without hypotheses on keq; the
    Catalog operations of the pool machine are the association-list functions; Sort/Reverse/Shuffle keep the mapping. *)
-From Verif Require Import Base Sorter SorterProofs Value Seq Coll Pool PoolFrame AssocProofs SorterProofs2 AssocProofs2.
+From Verif Require Import Base Sorter SorterProofs Value Seq Coll Pool PoolFrame AssocProofs SorterProofs2 AssocProofs2 ReorderProofs CatalogImpl CatalogProofs.
 Local Open Scope nat_scope.
 
 Theorem C03_keys_stay_distinct :
@@ -332,6 +332,210 @@ Example C03_sort_reverse_shuffle_example :
 Proof. split; [vm_compute; reflexivity|]. split; [vm_compute; reflexivity|]. split; [vm_compute; reflexivity|]. exact (distinctb_ok val val keq ex_cat eq_refl). Qed.
 
 
+(* ====================================================================================================
+   Round 3: the Catalog AS THE CODE HAS IT (CatalogImpl.v): a heap of mutable association objects, the
+   ordered list of their ids (associations_) and the key index (keys_), the methods of catalog.go
+   transcribed statement by statement.  [vinv zero h c] is the representation invariant (ids of the list
+   pairwise distinct and allocated; keys_ a permutation of the (key of the object, id) pairs of the list;
+   keys pairwise different under Go's "=="), [vabs zero h c] reads the list through the heap.  The key type
+   and "==" are the pool's (Value.keq, symmetric and transitive by C03_go_key_equality_is_symmetric and _is_transitive), so these
+   theorems have no hypothesis on the keys.
+   ==================================================================================================== *)
+
+(* every call of every history: the two-structure machine never panics or hangs, keeps its invariant, and
+   produces the observations of the one-list machine, whose state is the abstraction of its own *)
+Theorem C03_impl_every_step_refines_the_association_list :
+  forall (zero : val) (h : heap val val) (c : cat val) (o : cop val val),
+  vinv zero h c ->
+  exists (h' : heap val val) (c' : cat val),
+    cstep zero keq (h, c) o = Ret (h', c', snd (sstep zero keq (vabs zero h c) o)) /\
+    vinv zero h' c' /\
+    vabs zero h' c' = fst (sstep zero keq (vabs zero h c) o) /\
+    vframe zero h c h' c'.
+Proof. exact val_cstep_refines. Qed.
+
+Theorem C03_impl_every_history_refines_the_association_list :
+  forall (zero : val) (ops : list (cop val val)),
+  exists (h : heap val val) (c : cat val),
+    crun zero keq cinit ops = Ret (h, c, snd (srun zero keq [] ops)) /\
+    vinv zero h c /\ vabs zero h c = fst (srun zero keq [] ops).
+Proof. exact val_crun_from_empty. Qed.
+
+(* non-vacuity: a:=1, b:=2, c:=3, b:=20 (repeated key), remove b (in the middle), b:=5 *)
+Example C03_impl_every_history_example :
+  crun (iv 0) keq cinit ex6 = Ret (ex6_heap, ex6_cat, [BUnit; BUnit; BUnit; BUnit; BVal (iv 20); BUnit]) /\
+  srun (iv 0) keq [] ex6 = ([(ka, iv 1); (kc, iv 3); (kb, iv 5)], [BUnit; BUnit; BUnit; BUnit; BVal (iv 20); BUnit]) /\
+  vabs (iv 0) ex6_heap ex6_cat = [(ka, iv 1); (kc, iv 3); (kb, iv 5)] /\
+  ex6_heap = [(ka, iv 1); (kb, iv 20); (kc, iv 3); (kb, iv 5)] /\
+  c_assocs ex6_cat = [0; 2; 3] /\ c_keys ex6_cat = [(ka, 0); (kc, 2); (kb, 3)].
+Proof. repeat split; vm_compute; reflexivity. Qed.
+
+(* C03, title clause: after ANY history GetKeys, AsArray, iteration, size, the index and GetValue on every
+   key describe the same associations *)
+Theorem C03_impl_index_and_order_agree :
+  forall (zero : val) (ops : list (cop val val)) (h : heap val val) (c : cat val) (obs : list (cobs val val)),
+  crun zero keq cinit ops = Ret (h, c, obs) ->
+  vinv zero h c /\
+  c_get_keys h c = Ret (map fst (vabs zero h c)) /\
+  (exists (h' : heap val val) (arr : list id),
+     c_as_array h c = Ret (h', arr) /\ read_all h' arr = Ret (vabs zero h c)) /\
+  (exists (h' : heap val val) (it : iter id),
+     c_get_iterator h c = Ret (h', it) /\ drain (S (it_size it)) h' it = Ret (vabs zero h c)) /\
+  c_get_size c = length (vabs zero h c) /\
+  length (c_keys c) = length (vabs zero h c) /\
+  (forall k : val, c_get_value zero keq h c k = Ret (a_get_or_zero zero keq (vabs zero h c) k)) /\
+  (forall k v : val, In (k, v) (vabs zero h c) -> keq k k = true -> c_get_value zero keq h c k = Ret v) /\
+  (forall k : val, a_get keq (c_keys c) k = None <-> a_get keq (vabs zero h c) k = None) /\
+  wfm val val keq (vabs zero h c).
+Proof. exact val_index_and_order_agree. Qed.
+
+Example C03_impl_index_and_order_agree_example :
+  c_get_keys ex6_heap ex6_cat = Ret [ka; kc; kb] /\
+  c_get_values (iv 0) keq ex6_heap ex6_cat [ka; kb; kc; kd] = Ret [iv 1; iv 5; iv 3; iv 0] /\
+  cstep (iv 0) keq (ex6_heap, ex6_cat) CAsArray =
+    Ret (ex6_heap ++ [(ka, iv 1); (kc, iv 3); (kb, iv 5)], ex6_cat, BPairs [(ka, iv 1); (kc, iv 3); (kb, iv 5)]) /\
+  snd (srun (iv 0) keq [] (ex6 ++ [CIterate; CSize])) =
+    [BUnit; BUnit; BUnit; BUnit; BVal (iv 20); BUnit; BPairs [(ka, iv 1); (kc, iv 3); (kb, iv 5)]; BSize 3] /\
+  keq kb kb = true.
+Proof. repeat split; vm_compute; reflexivity. Qed.
+
+(* a handed-out array (or the snapshot behind an iterator) is not affected by anything done to the catalog
+   later — the behaviour after fix 5269313 *)
+Theorem C03_impl_snapshot_independent :
+  forall (zero : val) (h : heap val val) (c : cat val),
+  vinv zero h c ->
+  forall (h2 : heap val val) (arr : list id),
+  c_as_array h c = Ret (h2, arr) ->
+  read_all h2 arr = Ret (vabs zero h c) /\
+  (forall (ops : list (cop val val)) (h3 : heap val val) (c3 : cat val) (obs : list (cobs val val)),
+   crun zero keq (h2, c) ops = Ret (h3, c3, obs) -> read_all h3 arr = Ret (vabs zero h c)).
+Proof. exact val_snapshot_independent. Qed.
+
+Example C03_impl_snapshot_independent_example :
+  vinv (iv 0) ex6_heap ex6_cat /\
+  c_as_array ex6_heap ex6_cat = Ret (ex6_heap ++ [(ka, iv 1); (kc, iv 3); (kb, iv 5)], [4; 5; 6]) /\
+  (exists h3 c3 obs,
+     crun (iv 0) keq (ex6_heap ++ [(ka, iv 1); (kc, iv 3); (kb, iv 5)], ex6_cat) [CSet ka (iv 9); CRemove kc; CReverse] = Ret (h3, c3, obs) /\
+     vabs (iv 0) h3 c3 = [(kb, iv 5); (ka, iv 9)] /\
+     read_all h3 [4; 5; 6] = Ret [(ka, iv 1); (kc, iv 3); (kb, iv 5)]).
+Proof.
+  split; [exact ex6_inv|]. split; [vm_compute; reflexivity|].
+  eexists. eexists. eexists. split; [vm_compute; reflexivity|]. split; vm_compute; reflexivity.
+Qed.
+
+(* the code before fix 5269313 (AsArray returns the catalog's own association objects) violates it *)
+Theorem C03_impl_snapshot_independent_refuted_before_fix :
+  exists (zero : val) (h : heap val val) (c : cat val) (h2 : heap val val) (arr : list id)
+         (ops : list (cop val val)) (h3 : heap val val) (c3 : cat val) (obs : list (cobs val val)),
+    vinv zero h c /\ c_as_array_before_fix h c = Ret (h2, arr) /\ read_all h2 arr = Ret (vabs zero h c) /\
+    crun zero keq (h2, c) ops = Ret (h3, c3, obs) /\ read_all h3 arr <> Ret (vabs zero h c).
+Proof. exact snapshot_refuted_before_fix. Qed.
+
+(* RemoveValue removes the association OF THE GIVEN KEY (located by identity), returns its value *)
+Theorem C03_impl_remove_value :
+  forall (zero : val) (h : heap val val) (c : cat val) (k : val),
+  vinv zero h c ->
+  exists c' : cat val,
+    c_remove_value zero keq h c k = Ret (a_get_or_zero zero keq (vabs zero h c) k, c') /\
+    vinv zero h c' /\
+    vabs zero h c' = a_remove keq (vabs zero h c) k /\
+    (forall i : id, In i (c_assocs c') -> In i (c_assocs c)).
+Proof. exact val_remove_value_refines. Qed.
+
+(* two distinct pointer keys of equal content, equal values: the repaired code removes the right one *)
+Example C03_impl_remove_value_example :
+  vinv (iv 0) ex_ptr_heap ex_ptr_cat /\ keq kp1 kp2 = false /\ assoc_seq (kp1, iv 5) (kp2, iv 5) = true /\
+  c_remove_value (iv 0) keq ex_ptr_heap ex_ptr_cat kp2 = Ret (iv 5, {| c_assocs := [0]; c_keys := [(kp1, 0)] |}).
+Proof. split; [exact ex_ptr_inv|]. repeat split; vm_compute; reflexivity. Qed.
+
+(* the code before fix 0d7f9f0 (position found with the structural List.GetIndex) removes the entry of the
+   OTHER key from the list and the requested key from the index: the structures diverge *)
+Theorem C03_impl_remove_value_refuted_before_fix :
+  exists (zero : val) (h : heap val val) (c : cat val) (k r : val) (c' : cat val),
+    vinv zero h c /\ c_remove_value_before_fix zero keq assoc_seq h c k = Ret (r, c') /\
+    vabs zero h c' <> a_remove keq (vabs zero h c) k /\
+    c_get_keys h c' = Ret [k] /\ c_get_value zero keq h c' k = Ret zero /\ r <> zero /\
+    ~ vinv zero h c'.
+Proof. exact remove_refuted_before_fix. Qed.
+
+(* SetValue: an existing key is written through its object (the list and the index are untouched), a new
+   key allocates an object, appends it and indexes it; only the catalog's own cells are written *)
+Theorem C03_impl_set_value :
+  forall (zero : val) (h : heap val val) (c : cat val) (k v : val),
+  vinv zero h c ->
+  exists (h' : heap val val) (c' : cat val),
+    c_set_value keq h c k v = Ret (h', c') /\
+    vinv zero h' c' /\
+    vabs zero h' c' = a_set keq (vabs zero h c) k v /\
+    vframe zero h c h' c'.
+Proof. exact val_set_value_refines. Qed.
+
+Example C03_impl_set_value_example :
+  c_set_value keq ex6_heap ex6_cat kc (iv 30) = Ret ([(ka, iv 1); (kb, iv 20); (kc, iv 30); (kb, iv 5)], ex6_cat) /\
+  c_set_value keq ex6_heap ex6_cat kd (iv 4) =
+    Ret (ex6_heap ++ [(kd, iv 4)], {| c_assocs := [0; 2; 3; 4]; c_keys := [(ka, 0); (kc, 2); (kb, 3); (kd, 4)] |}).
+Proof. split; vm_compute; reflexivity. Qed.
+
+(* class functions: a NEW catalog in its invariant whose contents are the abstract Merge / Extract /
+   MakeFromMap; no existing heap cell is written, so the operands keep invariant and contents *)
+Theorem C03_impl_merge :
+  forall (zero : val) (h : heap val val) (a b : cat val),
+  vinv zero h a -> vinv zero h b ->
+  exists (h' : heap val val) (c' : cat val),
+    c_merge keq h a b = Ret (h', c') /\
+    vinv zero h' c' /\
+    vabs zero h' c' = a_merge keq (vabs zero h a) (vabs zero h b) /\
+    vsame zero h h'.
+Proof. exact val_merge_refines. Qed.
+
+Theorem C03_impl_extract :
+  forall (zero : val) (h : heap val val) (c : cat val) (ks : list val),
+  vinv zero h c ->
+  exists (h' : heap val val) (c' : cat val),
+    c_extract keq h c ks = Ret (h', c') /\
+    vinv zero h' c' /\
+    vabs zero h' c' = a_extract keq (vabs zero h c) ks /\
+    vsame zero h h'.
+Proof. exact val_extract_refines. Qed.
+
+Theorem C03_impl_from_map :
+  forall (zero : val) (h : heap val val) (m : list (val * val)),
+  exists (h' : heap val val) (c' : cat val),
+    c_from_map keq h m = Ret (h', c') /\
+    vinv zero h' c' /\
+    vabs zero h' c' = a_set_all keq [] m /\ vsame zero h h'.
+Proof. exact val_from_map_refines. Qed.
+
+(* MakeFromMap: the Go map's iteration order is an oracle (Pool.reorder); whatever it is, the pool's Catalog
+   holds exactly the associations of the Go map (C14_from_map_exact is the same lemma), and the code-shaped
+   MakeFromMap fed with the entries in that order lists exactly them *)
+Theorem C03_from_map_exact :
+  forall (zero : val) (p : pool) (src : nat) (okeys : list val) (m m' : list (val * val)),
+  get p src = OGoMap m -> wfm val val keq m -> reorder m okeys = Some m' ->
+  step zero p (FromMap CCatalog src okeys) = (p ++ [OCat m'], RNew) /\
+  step zero p (FromMap CMap src okeys) = (p ++ [OMap m'], RNew) /\
+  (forall x : val, a_get keq m' x = a_get keq m x) /\
+  wfm val val keq m' /\ length m' = length m /\
+  (exists m'' : list (val * val), Permutation.Permutation m m'' /\ Forall2 same_assoc m'' m') /\
+  (spelled_as_stored m okeys -> Permutation.Permutation m m').
+Proof. exact from_map_exact. Qed.
+
+Theorem C03_impl_from_map_in_oracle_order :
+  forall (zero : val) (h : heap val val) (okeys : list val) (m m' : list (val * val)),
+  wfm val val keq m -> reorder m okeys = Some m' ->
+  exists (h' : heap val val) (c' : cat val),
+    c_from_map keq h m' = Ret (h', c') /\ vinv zero h' c' /\ vabs zero h' c' = m' /\ vsame zero h h'.
+Proof. exact from_map_oracle. Qed.
+
+Example C03_impl_class_functions_example :
+  (exists h' c', c_merge keq ex6_heap ex6_cat ex6_cat = Ret (h', c') /\ vabs (iv 0) h' c' = [(ka, iv 1); (kc, iv 3); (kb, iv 5)] /\
+                 vabs (iv 0) h' ex6_cat = [(ka, iv 1); (kc, iv 3); (kb, iv 5)]) /\
+  (exists h' c', c_extract keq ex6_heap ex6_cat [kb; kd; ka; kb] = Ret (h', c') /\ vabs (iv 0) h' c' = [(kb, iv 5); (ka, iv 1)]) /\
+  (exists h' c', c_from_map keq ex6_heap [(kc, iv 1); (ka, iv 2); (kc, iv 3)] = Ret (h', c') /\ vabs (iv 0) h' c' = [(kc, iv 3); (ka, iv 2)]).
+Proof.
+  split; [|split]; eexists; eexists; (split; [vm_compute; reflexivity|]); repeat split; vm_compute; reflexivity.
+Qed.
+
 Print Assumptions C03_keys_stay_distinct.
 Print Assumptions C03_every_history_refines_the_abstract_map.
 Print Assumptions C03_views_agree.
@@ -358,3 +562,16 @@ Print Assumptions C03_pool_catalog_operations.
 Print Assumptions C03_pool_bulk_remove.
 Print Assumptions C03_pool_constructors.
 Print Assumptions C03_sort_reverse_shuffle_keep_the_mapping.
+Print Assumptions C03_impl_every_step_refines_the_association_list.
+Print Assumptions C03_impl_every_history_refines_the_association_list.
+Print Assumptions C03_impl_index_and_order_agree.
+Print Assumptions C03_impl_snapshot_independent.
+Print Assumptions C03_impl_snapshot_independent_refuted_before_fix.
+Print Assumptions C03_impl_remove_value.
+Print Assumptions C03_impl_remove_value_refuted_before_fix.
+Print Assumptions C03_impl_set_value.
+Print Assumptions C03_impl_merge.
+Print Assumptions C03_impl_extract.
+Print Assumptions C03_impl_from_map.
+Print Assumptions C03_from_map_exact.
+Print Assumptions C03_impl_from_map_in_oracle_order.
